@@ -529,6 +529,11 @@ class TrioCancelScope:
         return obj
 
     def m___exit__(self, interp, obj, args, kwargs, fr):
+        # a block that was (or became) shielded from outside cancellation: contracts can ask
+        # whether a unit shields anything (trace 'shielded')
+        sh = obj.fields.get("shield", False)
+        if not (sh is False):
+            interp.traces.setdefault("shielded", []).append(obj)
         return False
 
 
